@@ -103,6 +103,15 @@ def c_message_build():
     return _msg_sig(m) + (tuple(c.version for c in m.children), m.pid.pid_3.encoding_chars['FIELD'])
 
 
+def c_group_text():
+    # text assigned to a GROUP of a message that has its own delimiters
+    m = Message('OML_O33', version='2.5', validation_level=TOL, encoding_chars=dict(EC))
+    m.msh.msh_7 = '20200101'
+    m.oml_o33_patient = 'PID!1!!id***auth!!SUR*NAME@AL*IAS'
+    pid = m.oml_o33_patient.pid
+    return _msg_sig(m) + (tuple(c.name for c in pid.children), pid.pid_5[0].xpn_1.to_er7())
+
+
 def c_message_build_27():
     m = Message('ADT_A01', version='2.7', validation_level=TOL, encoding_chars=dict(STD))
     m.msh.msh_7 = '20200101'
@@ -215,6 +224,6 @@ def c_field_retype():
 
 CALLS = [c_zfield_datatypes, c_component_retype, c_component_cx10, c_field_retype, c_parse25_tol, c_parse25_strict_nogroups, c_parse27_strict, c_parse23_tol, c_parse24_bad_tol, c_parse24_bad_strict,
          c_segment_ec, c_segment_longbad_tol, c_segment_bad_strict, c_field, c_component, c_subcomponent, c_message_build,
-         c_message_build_27, c_segment_build, c_component_cm, c_component_st25, c_subcomponent_value, c_factory_dt,
+         c_message_build_27, c_group_text, c_segment_build, c_component_cm, c_component_st25, c_subcomponent_value, c_factory_dt,
          c_factory_fallback, c_factory_strict_bad, c_textual_27, c_is_base, c_parse_lists]
 NCALLS = len(CALLS)
